@@ -18,6 +18,9 @@ pub struct VfsEntry { x: u8 }
 impl VfsEntry {
     pub uninterp spec fn sdir(&self) -> bool;
     pub uninterp spec fn sfollowed(&self, yes: bool) -> VfsEntry;
+    pub uninterp spec fn slink(&self) -> bool;
+    #[verifier::external_body]
+    pub fn is_symlink(&self) -> (b: bool) ensures b == self.slink() { unimplemented!() }
     #[verifier::external_body]
     pub proof fn ax_follow_idem(&self, yes: bool) ensures self.sfollowed(yes).sfollowed(yes) == self.sfollowed(yes), self.sfollowed(yes).sdir() == self.sfollowed(yes).sdir() { }
     #[verifier::external_body]
@@ -31,6 +34,9 @@ impl DeIter<Out> {
     pub fn from_vec(v: Vec<Out>) -> (r: DeIter<Out>) ensures r.rest() == v@ { unimplemented!() }
     #[verifier::external_body]
     pub fn from_chain(a: Vec<Out>, b: Vec<Out>) -> (r: DeIter<Out>) ensures r.rest() == a@ + b@ { unimplemented!() }
+    // `self.iter.by_ref().collect::<Vec<_>>()`: the raw items of the inner iterator (ASSUMED[collect])
+    #[verifier::external_body]
+    pub fn take_all(&mut self) -> (r: Vec<Out>) ensures r@ == old(self).rest(), final(self).rest() == Seq::<Out>::empty() { unimplemented!() }
 }
 
 //@ struct file=src/sys/fs/entry_iter.rs name=EntryIter
@@ -268,7 +274,8 @@ impl EntryIter {
 
 //@ item sort file=src/sys/fs/entry_iter.rs block="impl EntryIter" fn=sort props=C08,C12
 //@ sig pub fn sort(&mut self, cmp: impl Fn(&VfsEntry, &VfsEntry) -> Ordering)
-//@ rw R9 1 ⟦self.collect::<Vec<_>>()⟧ => ⟦self.collect_all()⟧
+//@ rw R9 * ⟦self.collect::<Vec<_>>()⟧ => ⟦self.collect_all()⟧
+//@ rw R9 * ⟦self.iter.by_ref().collect::<Vec<_>>()⟧ => ⟦self.iter.take_all()⟧
 //@ rw R9 1 re⟦Box::new\((\w+)\.into_iter\(\)\)⟧ => ⟦DeIter::from_vec(\1)⟧
 //@ ins start
         let ghost all = self.out();
